@@ -88,6 +88,58 @@ def build_unread(chk, c, mod, n=5):
     return a, state
 
 
+def across_holders(chk, workdir):
+    """messages of ONE type held in different places (optional fields of two structs, plain field, array element, free-standing):
+    copy_from must work between any two of them (the value of an optional field is an instance of a per-field subclass: D82)"""
+    import os
+    text = ('struct Hdr { u32 id; u8 tag<>; };\nunion Un { 1: u8 a; 2: u32 b; };\nstruct Fix { u32 id; };\n'
+            'struct Req { Fix* hdr; Fix plain; Un* un; };\nstruct Resp { Fix* hdr; Fix* hdr2; Fix items<>; Un* un; Un u; };\n')
+    _, mod = py_impl.compile_prophy(text, os.path.join(workdir, 'holders'), 'holders')
+    req, resp = mod.Req(), mod.Resp()
+    req.hdr = True
+    req.hdr.id = 9
+    req.plain.id = 10
+    resp.hdr = True
+    resp.hdr2 = True
+    resp.hdr2.id = 11
+    resp.items.add().id = 12
+    free = mod.Fix()
+    free.id = 13
+    sources = [('optional field of another struct', req.hdr), ('another optional field of the same struct', resp.hdr2), ('free-standing message', free),
+               ('plain field', req.plain), ('array element', resp.items[0])]
+    targets = [('optional field', lambda: resp.hdr), ('plain field', lambda: req.plain), ('array element', lambda: resp.items[0]), ('free-standing message', lambda: free)]
+    for sname, src in sources:
+        for tname, get in targets:
+            dst = get()
+            if dst is src:
+                continue
+            want = src.id
+            casej = {'schema': text, 'operation': '%s .copy_from( %s )' % (tname, sname)}
+            chk.count(('holders', sname, tname), True)
+            chk.bump('directed:copy between holders')
+            try:
+                dst.copy_from(src)
+            except Exception as ex:  # noqa
+                chk.property_violation(casej, {'what': 'copy_from between two messages of one type raised %s: %s' % (py_impl.exc_class(ex), str(ex)[:120])})
+                continue
+            if get().id != want or src.id != want or get().encode('<') != src.encode('<'):
+                chk.property_violation(casej, {'what': 'after copy_from the two messages differ', 'ids': [get().id, src.id]})
+    # unions held by optional fields
+    req.un = True
+    req.un.discriminator = 2
+    req.un.b = 77
+    resp.un = True
+    for tname, get in (('optional union field', lambda: resp.un), ('plain union field', lambda: resp.u)):
+        casej = {'schema': text, 'operation': '%s .copy_from( optional union field of another struct )' % tname}
+        chk.count(('holders-union', tname), True)
+        try:
+            get().copy_from(req.un)
+            if get().b != 77:
+                chk.property_violation(casej, {'what': 'after copy_from the unions differ'})
+        except Exception as ex:  # noqa
+            chk.property_violation(casej, {'what': 'copy_from between two unions of one type raised %s: %s' % (py_impl.exc_class(ex), str(ex)[:120])})
+
+
 def run_c11(tier):
     chk = core.Check('C11', tier)
     chk.rule = ('for every message type several pairs (a, b) of random values (absent / present optional composites, limited and dynamic '
@@ -191,6 +243,7 @@ def run_c11(tier):
                             chk.property_violation({'schema': c.text, 'type': c.name, 'member': m['n']}, {'what': 'extend() stored the very objects it was given'})
                         elif [V.readback(x, m['t']) for x in arr] != before:
                             chk.property_violation({'schema': c.text, 'type': c.name, 'member': m['n']}, {'what': 'mutating the originals changed the elements copied by extend()'})
+        across_holders(chk, corpus.workdir)
         ans = client.batch(reqs)[nd:]
         for (casej, b_state, shared), m in zip(rows, ans):
             chk.corr_compared += 1
